@@ -1817,6 +1817,11 @@ class SSHConnection(SSHPacketHandler, asyncio.Protocol):
 
         self._send(packet + mac)
 
+        if pkttype == MSG_USERAUTH_REQUEST:
+            # Only a request which has actually gone out (not one deferred
+            # by a key exchange in progress) can be answered by the server
+            self._auth_request_sent = True
+
         if self._send_seq == 0xffffffff and not self._send_encryption:
             self._send_seq = 0
             raise ProtocolError('Sequence rollover before kex complete')
@@ -2085,7 +2090,6 @@ class SSHConnection(SSHPacketHandler, asyncio.Protocol):
 
         self.send_userauth_packet(MSG_USERAUTH_REQUEST, packet[1:],
                                   trivial=trivial)
-        self._auth_request_sent = True
 
     def send_userauth_failure(self, partial_success: bool) -> None:
         """Send a user authentication failure response"""
